@@ -199,6 +199,16 @@ def conv_mtf(which):
         check('fx-is-axis-1-frequencies', bool(np.allclose(np.broadcast_to(seen['fx'], (m, n)), np.broadcast_to(fx[None, :], (m, n)))))
         check('fy-is-axis-0-frequencies', bool(np.allclose(np.broadcast_to(seen['fy'], (m, n)), np.broadcast_to(fy[:, None], (m, n)))))
         check('fr-is-hypot', bool(np.allclose(np.broadcast_to(seen['fr'], (m, n)), np.hypot(fx[None, :], fy[:, None]))))
+        # complex-valued callables (a whole-sample phase ramp translates the object; a list equals its product)
+        ky, kx = int(rng.integers(-2, 3)), int(rng.integers(-2, 3))
+        ramp = lambda fx, fy: np.exp(-2j * np.pi * (np.asarray(fx) * kx * dx + np.asarray(fy) * ky * dx)) * np.ones((m, n))
+        damp = lambda fr: (1 + 0.5j * np.asarray(fr) * dx) * np.ones((m, n))
+        got_r = cv.apply_transfer_functions(o, dx, [ramp], shift=True, **kw)
+        check('complex-callable-phase-ramp-translates', bool(np.allclose(got_r, np.roll(o, (ky, kx), axis=(0, 1)), atol=1e-9)))
+        both = cv.apply_transfer_functions(o, dx, [ramp, damp], shift=True, **kw)
+        fxg, fyg = np.broadcast_to(fx[None, :], (m, n)), np.broadcast_to(fy[:, None], (m, n))
+        prod = ramp(fxg, fyg) * damp(np.hypot(fxg, fyg))
+        check('complex-callables-list-equals-product', bool(np.allclose(both, cv.apply_transfer_functions(o, dx, [prod], shift=True), atol=1e-9)))
         check('ft-is-arctan2(fy,fx)', bool(np.allclose(np.broadcast_to(seen['ft'], (m, n)), np.arctan2(fy[:, None], fx[None, :] * np.ones((m, 1))))))
     else:
         psf = rng.random((m, n)) + 1e-3
@@ -216,3 +226,7 @@ def conv_mtf(which):
         check('otf-modulus-is-mtf', bool(np.allclose(abs(of.data), mtf.data)))
         check('otf-phase-is-ptf', bool(np.allclose(np.exp(1j * ptf.data), of.data / np.maximum(abs(of.data), 1e-300), atol=1e-7)))
         check('frequency-spacing', bool(np.isclose(mtf.dx, 1000 / (m * dx))))
+        # the MTF does not depend on the units of the PSF: very faint and very bright PSFs (still far inside the float range)
+        for ex in (-200, -158, -120, 120, 160):
+            ms = otf.mtf_from_psf(psf * 10.0 ** ex, dx)
+            check('mtf-is-scale-invariant-at-1e%d' % ex, bool(np.isfinite(ms.data).all() and np.allclose(ms.data, mtf.data, rtol=1e-9, atol=1e-12)))
